@@ -79,12 +79,13 @@ def run(chk):
     for i in range(400 if thorough else 25):
         labelled.append(("scenario-global-in-lets:%d" % i, g7.scenario("global-in-lets")))
         labelled.append(("scenario-two-nonlocals:%d" % i, g7.scenario("two-nonlocals")))
+        labelled.append(("scenario-comp-nonlocal:%d" % i, g7.scenario("comp-nonlocal")))
     g6 = sp.Gen(chk.rng, "c06")
     for i in range(4000 if thorough else 100):
         labelled.append(("c06:%d" % i, g6.program()))
     chk.rule = ("programs = the former let-elision witness (regression) and the Coq class-attribute witness rendered as Hy + seeded random programs nesting defn / let / "
                 "defclass up to depth 4 over the names x y z, with (nonlocal ..)/(global ..) of 1-3 names at function start, "
-                "inside lets, and (8%) after a use; module level and function level; every reference logged. Each is "
+                "inside lets, inside a comprehension body (scenario), and (8%) after a use; module level and function level; every reference logged. Each is "
                 "(a) compiled with the scope classes instrumented: recorded events -> Gallina machine, outputs compared; "
                 "(b) executed, log / exception / module globals compared with the lexical reference interpreter. "
                 "non-trivial = distinct program with a nonlocal/global declaration on which the reference makes a claim")
